@@ -72,3 +72,8 @@ Fixpoint run_args (root:list seg) (cs:list argclass) (args:list (list seg)) : op
            end
   end.
 Definition run_op (root:list seg) (o:opdesc) (args:list (list seg)) := run_args root (op_args o) args.
+
+(* A HISTORY of wrapper calls on ONE ChrootFs instance. The wrapper of the current source keeps nothing between two
+   calls (Gen/ChrootOps.v: chroot_state = [], an obligation in Confine.v), so a history is the list of its steps. *)
+Definition run_history (root:list seg) (h:list (opdesc * list (list seg))) : list (option (list (list positive))) :=
+  map (fun oa => run_op root (fst oa) (snd oa)) h.
